@@ -7,5 +7,6 @@ package pbutil
 
 // protobuf decoding into the object the interface holds a pointer to; panics on error (assumed contract)
 //@ func MustUnmarshal(um Unmarshaler, data []byte)
-//@   trusted protobuf Unmarshal (third-party generated code); only the pointee changes
-//@   modifies pointee(um)
+//@   trusted protobuf Unmarshal (third-party generated code); only the pointee changes; ghost(unmarshals, nil) counts the calls
+//@   ghostset ghost(unmarshals, nil) := old(ghost(unmarshals, nil)) + 1
+//@   modifies pointee(um), ghost(unmarshals, nil)
